@@ -103,7 +103,7 @@ class C12(Prop):
         op = st.one_of(
             st.tuples(st.just('update'), tps), st.tuples(st.just('update'), tps),
             st.tuples(st.just('nochange')), st.tuples(st.just('error'), st.sampled_from(['rpc', 'exc'])),
-            st.tuples(st.just('malformed')),
+            st.tuples(st.just('malformed')), st.tuples(st.just('malformed'), st.just('unknown_type')),
             st.tuples(st.just('partly_bad'), tps, st.sampled_from(['stage', 'metric']), st.integers(0, 4)),
             st.tuples(st.just('register'), st.integers(0, len(POOL) - 1)),
             st.tuples(st.just('unregister'), st.integers(0, 5)),
@@ -303,6 +303,11 @@ class C12(Prop):
                 before = (w.cfg.tracepoints.current_hash, len(pending()))
                 if kind == 'error':
                     w.script = [FakeRpcError('unavailable') if op[1] == 'rpc' else RuntimeError('boom')]
+                elif len(op) > 1 and op[1] == 'unknown_type':
+                    # a well-formed message of a kind this client does not know (the response type is an open enum
+                    # on the wire): neither an update nor "no change"
+                    out.cls('response_of_an_unknown_type')
+                    w.script = [PollResponse(ts_nanos=n_upd, current_hash='', response_type=7)]
                 else:
                     w.script = [b'\xff\xff\xff\xff\x07garbage']
                 e = poll()
